@@ -180,7 +180,8 @@ func (r *ddrRecord) validate() (err error) {
 	}
 
 	for i, addr := range r.IPv6Hints {
-		if !addr.Is6() {
+		// An IPv4-mapped IPv6 address cannot be packed into an ipv6hint.
+		if !addr.Is6() || addr.Is4In6() {
 			return fmt.Errorf("ipv6_hints: at index %d: not an ipv6 addr", i)
 		}
 	}
